@@ -49,6 +49,8 @@ class Resolver:
                 return ("promoted", o["promoted"])
             if "uneval" in o:
                 return ("constitem", o["uneval"])
+            if "static" in o:
+                return ("static", o["static"])
             return ("unit",)
         return self.place(o["place"], depth)
 
@@ -131,7 +133,7 @@ class Resolver:
             # &(*_x) reborrow of a whole reference local: same value
             if len(pl["proj"]) == 1 and pl["proj"][0]["k"] == "deref":
                 inner = self.local(pl["local"], depth + 1)
-                if inner[0] in ("ref", "call", "arg", "promoted", "len", "field"):
+                if inner[0] in ("ref", "call", "arg", "promoted", "len", "field", "static"):
                     return inner
             return ("ref", frozenset(self.pts.resolve_place(pl)))
         if k == "discr":
@@ -140,7 +142,7 @@ class Resolver:
             args = tuple(self.op(o, depth + 1) for o in rv["ops"])
             if rv.get("agg") == "adt":
                 return ("agg", rv["adt"], rv["variant_name"], args)
-            return ("agg", rv.get("agg"), None, args)
+            return ("agg", rv.get("agg"), rv.get("def"), args)
         if k == "repeat":
             return ("repeat", self.op(rv["op"], depth + 1), rv.get("n"))
         if k == "copyforderef":
